@@ -181,7 +181,7 @@ pub fn required_probes(prop: &str) -> &'static [&'static str] {
         "C11" => &["stream_pending", "sweep_injections_fired"],
         "C12" => &["out_pending", "stream_pending"],
         "C15" => &["panics_injected", "panic_on_pool", "panic_on_caller", "calls_on_panicked"],
-        "C16" => &["sweep_injections_fired"],
+        "C16" => &["sweep_injections_fired", "kept_wakers"],
         "C17" => &["pool_threads_spawned"],
         "C14" => &["fsync_drop_mid", "drops_by_pool", "try_busy"],
         _ => &[],
